@@ -177,19 +177,16 @@ let handle kind a =
          | None -> Some ("WErr|" ^ span_str v45 r)
          | Some t ->
              let show o = match o with None -> ("Err", "-") | Some x -> (rec_str x, span_str v45 x) in
-             let (e, se) = show (read_eager (prs_of tab) h (frame (t @ [n_of_int 10]))) in
-             let showp o = match o with Err _ -> ("Err", "-") | Panic -> ("Panic", "-") | Ok x -> (rec_str x, span_str v45 x) in
-             let (l, sl) = showp (read_lazy_p (prs_of tab) h (t @ [n_of_int 10])) in
+             let (e, se) = show (read_eager_text (prs_of tab) h (t @ [n_of_int 10])) in
+             let (l, sl) = show (read_lazy_text (prs_of tab) h (t @ [n_of_int 10])) in
              Some (hex_of_bytes t ^ "|" ^ e ^ "|" ^ l ^ "|" ^ span_str v45 r ^ "/" ^ se ^ "/" ^ sl))
     | "ltxt" ->
         let h = hctx_of a.(0) a.(1) a.(2) a.(3) in
         let tab = ftab a.(5) in
         let v45 = a.(0) = "4.5" in
         let raw = bytes_of_hex a.(4) in
-        let t = frame raw in
         let show o = match o with None -> "Err" | Some x -> rec_str x ^ "/" ^ span_str v45 x in
-        let showp o = match o with Err _ -> "Err" | Panic -> "Panic" | Ok x -> rec_str x ^ "/" ^ span_str v45 x in
-        Some (show (read_eager (prs_of tab) h t) ^ "|" ^ showp (read_lazy_p (prs_of tab) h raw))
+        Some (show (read_eager_text (prs_of tab) h raw) ^ "|" ^ show (read_lazy_text (prs_of tab) h raw))
     | _ -> None
   with Unmodelled -> None
 
